@@ -288,6 +288,12 @@ def run(R):
             for args in seq:
                 for b in bins[:1] if i % 2 else bins:
                     rc, o, e = sb.run(args, bin=b, timeout=60)
+                    if rc == 124:
+                        # our own time limit, not an exit status of renamify: a pattern such as `.` on a 20 kB line makes a plan whose
+                        # size is quadratic in the line length (every hunk stores the line twice) - slow and large, but it terminates.
+                        # Only a run that does not end within 20 minutes counts as not terminating
+                        stats["slow_runs_repeated"] = stats.get("slow_runs_repeated", 0) + 1
+                        rc, o, e = sb.run(args, bin=b, timeout=1200)
                     stats["cli_runs"] += 1
                     stats["exit_codes"][rc] = stats["exit_codes"].get(rc, 0) + 1
                     R.case(("cli", i, tuple(args)), nontrivial=True)
